@@ -121,12 +121,14 @@ fn grid_case(rec: &Value, rng: &mut Rng) -> Option<(String, Value, Value)> {
     let form = s(cs, "form");
     let assign = cs["assign"].as_bool().unwrap();
     let (l, r) = (&cs["l"], &cs["r"]);
-    for round in 0..5 {
-        // rounds 3 and 4: the two zeros (the sign of zero must come out as with the plain f32 operator)
-        let v1 = match round { 3 => 0.0, 4 => -0.0, _ => rng.float(-12, 12) };
+    for round in 0..8 {
+        // rounds 3 and 4: the two zeros (the sign of zero must come out as with the plain f32 operator);
+        // rounds 5..7: both operands zero with opposite signs, and equal operands (comparisons must answer as f32 does: -0.0 == +0.0,
+        // neither is less than the other)
+        let v1 = match round { 3 | 6 => 0.0, 4 | 5 => -0.0, _ => rng.float(-12, 12) };
         let v = Vals {
             v1,
-            v2: if form == "eq" && round == 0 { v1 } else { rng.float(-12, 12) },
+            v2: match round { 5 => 0.0, 6 => -0.0, 7 => v1, 0 if form == "eq" => v1, _ => rng.float(-12, 12) },
             t1: Time(rng.range(-4_000_000_000_000, 4_000_000_000_000)),
             t2: Time(rng.range(1, 4_000_000_000_000) * if rng.next() & 1 == 0 { 1 } else { -1 }),
             d1: DimensionlessInteger(rng.range(-100_000, 100_000)),
